@@ -85,13 +85,25 @@ def run(c) -> CaseResult:
     if len(outs0) != len(outs1) or not all(bitequal(a.detach(), b.detach()) for a, b in zip(outs0, outs1)):
         res.fail("C18.observational.outputs", f"track_scales changed the outputs\n{src}")
     if c["backward"]:
+        fan = dsl.grad_fanout(prog)
+
+        def grad_clause(kind, k, a, b):
+            if bitequal(a, b):
+                return False
+            if a is not None and b is not None and a.shape == b.shape and fan >= 3 and \
+                    bool(((a - b).abs() <= 4e-6 * max(1e-30, float(a.abs().max()))).all()):
+                # a tensor with >= 3 consumers: inserting autograd nodes changes the order in which its gradient
+                # contributions are accumulated (float addition is not associative) - last-ulp differences
+                res.fail("C18.observational.accumulation-order-ulp", f"gradient of {kind} {k} differs in the last ulps with tracking on "
+                         f"(max {float((a - b).abs().max()):.3g} on {float(a.abs().max()):.3g}; a tensor of the graph has {fan} gradient contributions)\n{src}")
+            else:
+                res.fail(f"C18.observational.{kind}-grad", f"gradient of {kind} {k} differs with tracking on\n{src}")
+            return True
         for k in pg0:
-            if not bitequal(pg0[k], pg1.get(k)):
-                res.fail("C18.observational.param-grad", f"gradient of parameter {k} differs with tracking on\n{src}")
+            if grad_clause("param", k, pg0[k], pg1.get(k)):
                 break
         for k in ig0:
-            if not bitequal(ig0[k], ig1.get(k)):
-                res.fail("C18.observational.input-grad", f"gradient of input {k} differs with tracking on\n{src}")
+            if grad_clause("input", k, ig0[k], ig1.get(k)):
                 break
     # ---- (b) metrics == statistics of independently captured tensors
     store, graphs, _, _ = tracking.capture(m, inputs, backward=c["backward"])
@@ -161,13 +173,25 @@ def run_analyse(c) -> CaseResult:
     except Exception as e:  # noqa: BLE001
         res.fail(exc_bucket("C18.analyse.raises", e)[:300], f"{type(e).__name__}: {str(e)[:300]}\n{src}")
         return res
+    fan = dsl.grad_fanout(prog)
+
+    def ulp_only(a, b):
+        return a is not None and b is not None and a.shape == b.shape and fan >= 3 and \
+            bool(((a - b).abs() <= 4e-6 * max(1e-30, float(a.abs().max()))).all())
     for n, p in m.named_parameters():
-        if not bitequal(pg0[n], None if p.grad is None else p.grad):
-            res.fail("C18.analyse.param-grad", f"parameter {n} gradient after analyse_module differs from a plain forward/backward\n{src}")
+        gp = None if p.grad is None else p.grad
+        if not bitequal(pg0[n], gp):
+            if ulp_only(pg0[n], gp):
+                res.fail("C18.observational.accumulation-order-ulp", f"analyse_module: gradient of parameter {n} differs in the last ulps ({fan} gradient contributions to one tensor)\n{src}")
+            else:
+                res.fail("C18.analyse.param-grad", f"parameter {n} gradient after analyse_module differs from a plain forward/backward\n{src}")
             break
     for k, t in zip(order, ins):
         if t.is_floating_point() and not bitequal(ig0[k], t.grad):
-            res.fail("C18.analyse.input-grad", f"input {k} gradient after analyse_module differs from a plain forward/backward\n{src}")
+            if ulp_only(ig0[k], t.grad):
+                res.fail("C18.observational.accumulation-order-ulp", f"analyse_module: gradient of input {k} differs in the last ulps ({fan} gradient contributions to one tensor)\n{src}")
+            else:
+                res.fail("C18.analyse.input-grad", f"input {k} gradient after analyse_module differs from a plain forward/backward\n{src}")
             break
     # annotations vs independently captured standard deviations (same fx graph, harness interpreter)
     tracer = _DeepTracer()
